@@ -259,6 +259,7 @@ func suiteDocument(r *Rng, n int, thorough bool, o *Out) {
 		uniquePrimary := true
 		// primary data
 		dataKind := r.IntN(9)
+		mixedTyped := false
 		switch dataKind {
 		case 0:
 			doc.Data = nil
@@ -289,6 +290,15 @@ func suiteDocument(r *Rng, n int, thorough bool, o *Out) {
 				mst := st
 				if _, isRes := col.(*jsonapi.Resources); isRes && r.chance(1, 3) {
 					mst = ts[r.IntN(len(ts))] // Resources can mix types
+				}
+				if _, isWC := col.(*jsonapi.WrapperCollection); isWC && r.chance(1, 4) {
+					// WrapperCollection.Add takes any wrapped struct: an element of another
+					// struct-built type is marshaled as a resource of ITS type
+					if other := ts[r.IntN(len(ts))]; other.backed && other.typ.Name != st.typ.Name {
+						mst = other
+						mixedTyped = true
+						o.stat("data.WrapperCollection-mixed")
+					}
 				}
 				res := genResOf(r, mst, o)
 				if seen[resKeyOf(res)] {
@@ -340,8 +350,20 @@ func suiteDocument(r *Rng, n int, thorough bool, o *Out) {
 		nInc := r.IntN(7)
 		for i := 0; i < nInc; i++ {
 			var res jsonapi.Resource
+			if _, single := doc.Data.(jsonapi.Resource); single && len(pool) > 0 && r.chance(1, 8) {
+				// the primary resource is replaced between two Include calls: what counts
+				// is the primary data at the time of each call
+				doc.Data = pool[r.IntN(len(pool))]
+				prim = docResources(doc)
+				for j := range doc.Included {
+					if resKeyOf(doc.Included[j]) == resKeyOf(prim[0]) {
+						uniquePrimary = false // it had been included before it became primary
+					}
+				}
+				o.stat("include.data-replaced")
+			}
 			switch {
-			case len(prim) > 0 && r.chance(1, 4):
+			case len(prim) > 0 && r.chance(1, 4) && !mixedTyped:
 				res = prim[r.IntN(len(prim))]
 				o.stat("include.primary")
 			case len(pool) > 0:
@@ -561,6 +583,35 @@ func suiteDocument(r *Rng, n int, thorough bool, o *Out) {
 		}
 		if a := urlSnap(url); a != urlBefore {
 			v.fail("C11", "marshaling changed what is read from the URL: "+urlBefore+" became "+a)
+		}
+		// the output depends on the URL's content only: the URL that was just used, its
+		// selection edited (one name swapped for another, as many names as before), gives
+		// what a fresh URL of the same content gives
+		if err == nil && r.chance(1, 4) {
+			for _, st := range ts {
+				sel := fields[st.typ.Name]
+				var other string
+				for _, f := range st.typ.Fields() {
+					if !inList(sel, f) {
+						other = f
+						break
+					}
+				}
+				if len(sel) > 0 && other != "" {
+					c2 := append([]string{}, sel...)
+					c2[r.IntN(len(c2))] = other
+					fields[st.typ.Name] = c2
+					var outUsed, outFresh []byte
+					guard(func() { outUsed, _ = jsonapi.MarshalDocument(doc, url) })
+					guard(func() { outFresh, _ = jsonapi.MarshalDocument(doc, mkURL()) })
+					if !bytes.Equal(outUsed, outFresh) {
+						v.fail("C11", "a URL that was used before and a fresh URL of the same content give different output")
+					}
+					fields[st.typ.Name] = sel
+					o.stat("url.edited-and-reused")
+					break
+				}
+			}
 		}
 		pv := v.String()
 		o.emit(op, obs, pv)
